@@ -865,7 +865,12 @@ class _PCovCUR(GreedySelector):
             )
 
         if self.k < pcovr_distance.shape[0] - 1:
-            v, U = eigsh(pcovr_distance, k=self.k, tol=1e-12)
+            # seeded start vector: with a degenerate leading eigenvalue the vector that
+            # ARPACK returns depends on it, and so would the selection
+            v0 = check_random_state(self.random_state).uniform(
+                -1, 1, pcovr_distance.shape[0]
+            )
+            v, U = eigsh(pcovr_distance, k=self.k, tol=1e-12, v0=v0)
         else:
             v, U = eigh(pcovr_distance)
         U = U[:, np.flip(np.argsort(v))]
